@@ -51,8 +51,8 @@ Theorem C08_gen_update_rejects_unsorted : forall (self : ktz) (modes data : vec)
 Proof. exact gen_update_rejects_unsorted. Qed.
 Print Assumptions C08_gen_update_rejects_unsorted.
 
-(* asc is "no adjacent descent" *)
-Theorem C08_gen_update_asc_spec : forall l : vec, asc l = false <-> exists pre x y post, l = pre ++ x :: y :: post /\ y < x.
+(* asc is "strictly ascending" (b9311d6): no adjacent pair y <= x *)
+Theorem C08_gen_update_asc_spec : forall l : vec, asc l = false <-> exists pre x y post, l = pre ++ x :: y :: post /\ y <= x.
 Proof. exact asc_false_iff_descent. Qed.
 Print Assumptions C08_gen_update_asc_spec.
 
@@ -74,5 +74,8 @@ Example C08_gen_update_example :
   ktensor_update (mkkt [2; 3] [[[1; 4]; [2; 5]; [3; 6]]; [[7; 8]]]) [0] [1; 2; 3; 4; 5; 6; 99] = Ok (mkkt [2; 3] [[[1; 4]; [2; 5]; [3; 6]]; [[7; 8]]]) /\
   ktensor_update (mkkt [2; 3] [[[1; 4]; [2; 5]; [3; 6]]; [[7; 8]]]) [1; -1] [1; 2; 3; 4] = Err /\
   ktensor_update (mkkt [2; 3] [[[1; 4]; [2; 5]; [3; 6]]; [[7; 8]]]) [2] [1; 2; 3; 4] = Err /\
-  ktensor_update (mkkt [2; 3] [[[1; 4]; [2; 5]; [3; 6]]; [[7; 8]]]) [-1] [1] = Err.
+  ktensor_update (mkkt [2; 3] [[[1; 4]; [2; 5]; [3; 6]]; [[7; 8]]]) [-1] [1] = Err /\
+  ktensor_update (mkkt [2; 3] [[[1; 4]; [2; 5]; [3; 6]]; [[7; 8]]]) [0; 0] [1; 2; 3; 4; 5; 6; 1; 2; 3; 4; 5; 6] = Err /\
+  ktensor_update (mkkt [2; 3] [[[1; 4]; [2; 5]; [3; 6]]; [[7; 8]]]) [0; 5] [1; 2; 3; 4; 5; 6; 7; 8] = Err /\
+  ktensor_update (mkkt [2; 3] [[[1; 4]; [2; 5]; [3; 6]]; [[7; 8]]]) [-1; 0] [1; 2; 3; 4; 5] = Err.
 Proof. repeat split; reflexivity. Qed.
